@@ -174,10 +174,13 @@ type Result struct {
 	Aux   string   `json:"aux,omitempty"`
 	Err   string   `json:"err,omitempty"`
 	Panic string   `json:"panic,omitempty"`
+	// ErrLate is the text of the returned error rendered again when the run is over: a caller
+	// may look at an error long after the call returned (C19: other calls have run meanwhile)
+	ErrLate string `json:"err_late,omitempty"`
 }
 
 func (r *Result) String() string {
-	return fmt.Sprintf("raw=%d%v aux=%q err=%q panic=%q", len(r.Raw), head(r.Raw, 6), r.Aux, r.Err, r.Panic)
+	return fmt.Sprintf("raw=%d%v aux=%q err=%q err_when_read_later=%q panic=%q", len(r.Raw), head(r.Raw, 6), r.Aux, r.Err, r.ErrLate, r.Panic)
 }
 
 func head(s []string, n int) []string {
@@ -205,7 +208,13 @@ type OpSpec struct {
 	Weight int
 }
 
+// lastErr remembers, per simulated task, the error value of the call that just returned.
+var lastErr = map[int]error{}
+
 func errStr(e error) string {
+	if t := simrt.CurTask(); t != nil {
+		lastErr[t.ID] = e
+	}
 	if e == nil {
 		return ""
 	}
